@@ -10,7 +10,7 @@
         floating-point arithmetic without overflow/underflow; a hypothesis, not an axiom),
     (c) with `ℝ` for the skewness formula.
 
-  FINDING (D11).  `impl SubAssign<Vector2<T>> for Vector2<T>` is not `Sub`: the model mirrors the code
+  FINDING (D12).  `impl SubAssign<Vector2<T>> for Vector2<T>` is not `Sub`: the model mirrors the code
   (`self.0 -= rhs.0; self.0 -= rhs.0;`), `C19_v2_subAssign_fails` is the proved negation of the
   clause "compound assignment = binary operator" for that operator, `C19_v2_subAssign_eq_iff` the
   partial theorem (equality exactly when the right-hand side is the null vector).
@@ -38,6 +38,40 @@ import Mathlib.Analysis.Real.Sqrt
 namespace HC.C19
 open HC.Geo
 
+/-! ## compound assignment = binary operator, in EVERY arithmetic
+
+These hold by unfolding for any coordinate type with the operation (no law needed) — in particular for
+machine floats: "bit for bit".  The one exception is `Vector2 -=` (see `C19_v2_subAssign_*` below). -/
+section AnyArithmetic
+variable {α : Type}
+
+/-- what `SubAssign for Vector2` computes, in every arithmetic: `x` decremented twice, `y` untouched -/
+theorem C19_v2_subAssign_unfold [Sub α] (a b : V2 α) :
+    V2.subAssign a b = ⟨a.x - b.x - b.x, a.y⟩ := rfl
+theorem C19_v2_addAssign_eq [Add α] (a b : V2 α) : V2.addAssign a b = V2.add a b := rfl
+theorem C19_v2_mulAssign_eq [Mul α] (a : V2 α) (k : α) : V2.mulAssign a k = V2.mul a k := rfl
+theorem C19_v2_divAssign_eq [Div α] [OfNat α 0] [DecidableEq α] (a : V2 α) (k : α) :
+    V2.divAssign a k = V2.div a k := rfl
+theorem C19_v3_addAssign_eq [Add α] (a b : V3 α) : V3.addAssign a b = V3.add a b := rfl
+theorem C19_v3_subAssign_eq [Sub α] (a b : V3 α) : V3.subAssign a b = V3.sub a b := rfl
+theorem C19_v3_mulAssign_eq [Mul α] (a : V3 α) (k : α) : V3.mulAssign a k = V3.mul a k := rfl
+theorem C19_v3_divAssign_eq [Div α] [OfNat α 0] [DecidableEq α] (a : V3 α) (k : α) :
+    V3.divAssign a k = V3.div a k := rfl
+theorem C19_p2_addVAssign_eq [Add α] (p : P2 α) (v : V2 α) : P2.addVAssign p v = P2.addV p v := rfl
+theorem C19_p2_addVRef_eq [Add α] (p : P2 α) (v : V2 α) : P2.addVRef p v = P2.addV p v := rfl
+theorem C19_p2_addVRefAssign_eq [Add α] (p : P2 α) (v : V2 α) : P2.addVRefAssign p v = P2.addV p v := rfl
+theorem C19_p2_subVAssign_eq [Sub α] (p : P2 α) (v : V2 α) : P2.subVAssign p v = P2.subV p v := rfl
+theorem C19_p2_subVRef_eq [Sub α] (p : P2 α) (v : V2 α) : P2.subVRef p v = P2.subV p v := rfl
+theorem C19_p2_subVRefAssign_eq [Sub α] (p : P2 α) (v : V2 α) : P2.subVRefAssign p v = P2.subV p v := rfl
+theorem C19_p3_addVAssign_eq [Add α] (p : P3 α) (v : V3 α) : P3.addVAssign p v = P3.addV p v := rfl
+theorem C19_p3_addVRef_eq [Add α] (p : P3 α) (v : V3 α) : P3.addVRef p v = P3.addV p v := rfl
+theorem C19_p3_addVRefAssign_eq [Add α] (p : P3 α) (v : V3 α) : P3.addVRefAssign p v = P3.addV p v := rfl
+theorem C19_p3_subVAssign_eq [Sub α] (p : P3 α) (v : V3 α) : P3.subVAssign p v = P3.subV p v := rfl
+theorem C19_p3_subVRef_eq [Sub α] (p : P3 α) (v : V3 α) : P3.subVRef p v = P3.subV p v := rfl
+theorem C19_p3_subVRefAssign_eq [Sub α] (p : P3 α) (v : V3 α) : P3.subVRefAssign p v = P3.subV p v := rfl
+
+end AnyArithmetic
+
 /-! ## (a) exact laws over a field -/
 section Exact
 variable {K : Type} [Field K]
@@ -50,11 +84,8 @@ theorem C19_v2_sub_self (v : V2 K) : V2.sub v v = ⟨0, 0⟩ := by
 theorem C19_v2_add_sub_cancel (v u : V2 K) : V2.sub (V2.add v u) v = u := by
   cases u; simp [V2.sub, V2.add]
 
-theorem C19_v2_addAssign_eq (a b : V2 K) : V2.addAssign a b = V2.add a b := rfl
 
-theorem C19_v2_mulAssign_eq (a : V2 K) (k : K) : V2.mulAssign a k = V2.mul a k := rfl
 
-theorem C19_v2_divAssign_eq [DecidableEq K] (a : V2 K) (k : K) : V2.divAssign a k = V2.div a k := rfl
 
 /-- what `SubAssign for Vector2` computes -/
 theorem C19_v2_subAssign_formula (a b : V2 K) : V2.subAssign a b = ⟨a.x - 2 * b.x, a.y⟩ := by
@@ -70,7 +101,7 @@ theorem C19_v2_subAssign_eq_iff (a b : V2 K) :
   · rintro ⟨h1, h2⟩
     simp [h1, h2]
 
-/-- proved negation of "compound assignment = binary operator" for `Vector2 -=` (finding D11) -/
+/-- proved negation of "compound assignment = binary operator" for `Vector2 -=` (finding D12) -/
 theorem C19_v2_subAssign_fails : ∃ a b : V2 Rat, V2.subAssign a b ≠ V2.sub a b :=
   ⟨⟨1, 2⟩, ⟨3 / 2, -1 / 4⟩, by
     intro h
@@ -95,10 +126,6 @@ theorem C19_v3_sub_self (v : V3 K) : V3.sub v v = ⟨0, 0, 0⟩ := by
 theorem C19_v3_add_sub_cancel (v u : V3 K) : V3.sub (V3.add v u) v = u := by
   cases u; simp [V3.sub, V3.add]
 
-theorem C19_v3_addAssign_eq (a b : V3 K) : V3.addAssign a b = V3.add a b := rfl
-theorem C19_v3_subAssign_eq (a b : V3 K) : V3.subAssign a b = V3.sub a b := rfl
-theorem C19_v3_mulAssign_eq (a : V3 K) (k : K) : V3.mulAssign a k = V3.mul a k := rfl
-theorem C19_v3_divAssign_eq [DecidableEq K] (a : V3 K) (k : K) : V3.divAssign a k = V3.div a k := rfl
 
 theorem C19_v3_dot_comm (a b : V3 K) : V3.dot a b = V3.dot b a := by
   simp only [V3.dot]; ring
@@ -119,12 +146,6 @@ theorem C19_v3_div_ok_iff [DecidableEq K] (a : V3 K) (k : K) :
 
 /-! ### Vertex2 / Vertex3 -/
 
-theorem C19_p2_addVAssign_eq (p : P2 K) (v : V2 K) : P2.addVAssign p v = P2.addV p v := rfl
-theorem C19_p2_addVRef_eq (p : P2 K) (v : V2 K) : P2.addVRef p v = P2.addV p v := rfl
-theorem C19_p2_addVRefAssign_eq (p : P2 K) (v : V2 K) : P2.addVRefAssign p v = P2.addV p v := rfl
-theorem C19_p2_subVAssign_eq (p : P2 K) (v : V2 K) : P2.subVAssign p v = P2.subV p v := rfl
-theorem C19_p2_subVRef_eq (p : P2 K) (v : V2 K) : P2.subVRef p v = P2.subV p v := rfl
-theorem C19_p2_subVRefAssign_eq (p : P2 K) (v : V2 K) : P2.subVRefAssign p v = P2.subV p v := rfl
 
 theorem C19_p2_sub_self (p : P2 K) : P2.sub p p = ⟨0, 0⟩ := by
   simp [P2.sub]
@@ -135,12 +156,6 @@ theorem C19_p2_add_sub_cancel (p : P2 K) (v : V2 K) : P2.sub (P2.addV p v) p = v
 theorem C19_p2_addV_subV_cancel (p : P2 K) (v : V2 K) : P2.subV (P2.addV p v) v = p := by
   cases p; simp [P2.subV, P2.addV]
 
-theorem C19_p3_addVAssign_eq (p : P3 K) (v : V3 K) : P3.addVAssign p v = P3.addV p v := rfl
-theorem C19_p3_addVRef_eq (p : P3 K) (v : V3 K) : P3.addVRef p v = P3.addV p v := rfl
-theorem C19_p3_addVRefAssign_eq (p : P3 K) (v : V3 K) : P3.addVRefAssign p v = P3.addV p v := rfl
-theorem C19_p3_subVAssign_eq (p : P3 K) (v : V3 K) : P3.subVAssign p v = P3.subV p v := rfl
-theorem C19_p3_subVRef_eq (p : P3 K) (v : V3 K) : P3.subVRef p v = P3.subV p v := rfl
-theorem C19_p3_subVRefAssign_eq (p : P3 K) (v : V3 K) : P3.subVRefAssign p v = P3.subV p v := rfl
 
 theorem C19_p3_sub_self (p : P3 K) : P3.sub p p = ⟨0, 0, 0⟩ := by
   simp [P3.sub]
@@ -206,7 +221,7 @@ theorem C19_p3_average_comm (a b : P3 K) : P3.average a b = P3.average b a := by
   simp only [P3.average, P3.mk.injEq]
   exact ⟨by ring, by ring, by ring⟩
 
-private theorem mid_between (x y : K) :
+theorem mid_between (x y : K) :
     min x y ≤ (x + y) / 2 ∧ (x + y) / 2 ≤ max x y := by
   rcases le_total x y with h | h
   · rw [min_eq_left h, max_eq_right h]
@@ -227,7 +242,7 @@ theorem C19_p3_average_between (a b : P3 K) :
 
 /-! ### `unit_dir` / `normal_dir`: failure iff null vector -/
 
-private theorem sq2_zero_iff (x y : K) : x * x + y * y = 0 ↔ x = 0 ∧ y = 0 := by
+theorem sq2_zero_iff (x y : K) : x * x + y * y = 0 ↔ x = 0 ∧ y = 0 := by
   constructor
   · intro h
     have hx := mul_self_nonneg x
@@ -237,7 +252,7 @@ private theorem sq2_zero_iff (x y : K) : x * x + y * y = 0 ↔ x = 0 ∧ y = 0 :
     exact ⟨mul_self_eq_zero.mp hx0, mul_self_eq_zero.mp hy0⟩
   · rintro ⟨rfl, rfl⟩; simp
 
-private theorem sq3_zero_iff (x y z : K) : x * x + y * y + z * z = 0 ↔ x = 0 ∧ y = 0 ∧ z = 0 := by
+theorem sq3_zero_iff (x y z : K) : x * x + y * y + z * z = 0 ↔ x = 0 ∧ y = 0 ∧ z = 0 := by
   constructor
   · intro h
     have hx := mul_self_nonneg x
@@ -346,7 +361,7 @@ theorem C19_unitDirR3_err_iff (v : V3 ℝ) : unitDirR3 v = .error .invalidUnitDi
   unfold unitDirR3 V3.unitDirPre
   split <;> rename_i h <;> split at h <;> simp_all
 
-private theorem normSq2_pos {v : V2 ℝ} (hv : v ≠ ⟨0, 0⟩) : 0 < V2.normSq v := by
+theorem normSq2_pos {v : V2 ℝ} (hv : v ≠ ⟨0, 0⟩) : 0 < V2.normSq v := by
   cases v with
   | mk x y =>
     have h0 : x * x + y * y ≠ 0 := fun h => hv (by
@@ -354,7 +369,7 @@ private theorem normSq2_pos {v : V2 ℝ} (hv : v ≠ ⟨0, 0⟩) : 0 < V2.normSq
     have := add_nonneg (mul_self_nonneg x) (mul_self_nonneg y)
     exact lt_of_le_of_ne this (Ne.symm h0)
 
-private theorem normSq3_pos {v : V3 ℝ} (hv : v ≠ ⟨0, 0, 0⟩) : 0 < V3.normSq v := by
+theorem normSq3_pos {v : V3 ℝ} (hv : v ≠ ⟨0, 0, 0⟩) : 0 < V3.normSq v := by
   cases v with
   | mk x y z =>
     have h0 : x * x + y * y + z * z ≠ 0 := fun h => hv (by
@@ -608,7 +623,7 @@ theorem C19_fl_v3_cross_antisymm (hodd : ∀ x, fl (-x) = -fl x) (a b : V3 (FlR 
 
 /-! ### the orientation sign outside the rounding band -/
 
-private theorem mul_err {a b p q : ℝ} (ha : |a - 1| ≤ p) (hb : |b - 1| ≤ q) :
+theorem mul_err {a b p q : ℝ} (ha : |a - 1| ≤ p) (hb : |b - 1| ≤ q) :
     |a * b - 1| ≤ p + q + p * q := by
   have e : a * b - 1 = (a - 1) * (b - 1) + (a - 1) + (b - 1) := by ring
   rw [e]
@@ -664,5 +679,488 @@ theorem C19_fl_orient_sign (h : RoundModel fl u) (a b c : P2 (FlR fl))
     constructor <;> constructor <;> intro _ <;> linarith [hP.1, hP.2, hQ.1, hQ.2]
 
 end Rounding
+
+/-! ## (c) skewness over ℝ
+
+`skewOfAngles pi θs` is the value `compute_face_skewness_2d/3d` return once the corner angles `θs`
+have been measured (in the order the loop visits the corners).  `pi` is a parameter (`0 < pi`): the
+Rust uses the `f64` constant, the theorems hold for it as well as for `Real.pi`. -/
+section Skew
+
+theorem foldl_min_le (ts : List ℝ) : ∀ t : ℝ,
+    ts.foldl (fun m θ => min m θ) t ≤ t ∧ ∀ x ∈ ts, ts.foldl (fun m θ => min m θ) t ≤ x := by
+  induction ts with
+  | nil => intro t; simp
+  | cons a r ih =>
+    intro t
+    obtain ⟨h1, h2⟩ := ih (min t a)
+    simp only [List.foldl_cons, List.mem_cons]
+    refine ⟨h1.trans (min_le_left _ _), ?_⟩
+    rintro x (rfl | hx)
+    · exact h1.trans (min_le_right _ _)
+    · exact h2 x hx
+
+theorem foldl_min_mem (ts : List ℝ) : ∀ t : ℝ,
+    ts.foldl (fun m θ => min m θ) t ∈ t :: ts := by
+  induction ts with
+  | nil => intro t; simp
+  | cons a r ih =>
+    intro t
+    have := ih (min t a)
+    simp only [List.foldl_cons, List.mem_cons] at this ⊢
+    rcases this with h | h
+    · rcases min_choice t a with h' | h'
+      · left; rw [h, h']
+      · right; left; rw [h, h']
+    · right; right; exact h
+
+theorem foldl_max_ge (ts : List ℝ) : ∀ t : ℝ,
+    t ≤ ts.foldl (fun m θ => max m θ) t ∧ ∀ x ∈ ts, x ≤ ts.foldl (fun m θ => max m θ) t := by
+  induction ts with
+  | nil => intro t; simp
+  | cons a r ih =>
+    intro t
+    obtain ⟨h1, h2⟩ := ih (max t a)
+    simp only [List.foldl_cons, List.mem_cons]
+    refine ⟨(le_max_left _ _).trans h1, ?_⟩
+    rintro x (rfl | hx)
+    · exact (le_max_right _ _).trans h1
+    · exact h2 x hx
+
+theorem foldl_max_mem (ts : List ℝ) : ∀ t : ℝ,
+    ts.foldl (fun m θ => max m θ) t ∈ t :: ts := by
+  induction ts with
+  | nil => intro t; simp
+  | cons a r ih =>
+    intro t
+    have := ih (max t a)
+    simp only [List.foldl_cons, List.mem_cons] at this ⊢
+    rcases this with h | h
+    · rcases max_choice t a with h' | h'
+      · left; rw [h, h']
+      · right; left; rw [h, h']
+    · right; right; exact h
+
+theorem minAngle_le (t : ℝ) (ts : List ℝ) : ∀ x ∈ t :: ts, minAngle t ts ≤ x := by
+  intro x hx
+  rcases List.mem_cons.mp hx with rfl | hx
+  · exact (foldl_min_le ts _).1
+  · exact (foldl_min_le ts t).2 x hx
+
+theorem minAngle_mem (t : ℝ) (ts : List ℝ) : minAngle t ts ∈ t :: ts := foldl_min_mem ts t
+
+theorem le_maxAngle (t : ℝ) (ts : List ℝ) : ∀ x ∈ t :: ts, x ≤ maxAngle t ts := by
+  intro x hx
+  rcases List.mem_cons.mp hx with rfl | hx
+  · exact (foldl_max_ge ts _).1
+  · exact (foldl_max_ge ts t).2 x hx
+
+theorem maxAngle_mem (t : ℝ) (ts : List ℝ) : maxAngle t ts ∈ t :: ts := foldl_max_mem ts t
+
+/-- the extreme angles depend only on the SET of angles -/
+theorem extremes_congr {t t' : ℝ} {ts ts' : List ℝ}
+    (h : ∀ x, x ∈ t :: ts ↔ x ∈ t' :: ts') :
+    minAngle t ts = minAngle t' ts' ∧ maxAngle t ts = maxAngle t' ts' := by
+  constructor
+  · exact le_antisymm (minAngle_le t ts _ ((h _).mpr (minAngle_mem t' ts')))
+      (minAngle_le t' ts' _ ((h _).mp (minAngle_mem t ts)))
+  · exact le_antisymm (le_maxAngle t' ts' _ ((h _).mp (maxAngle_mem t ts)))
+      (le_maxAngle t ts _ ((h _).mpr (maxAngle_mem t' ts')))
+
+/-- **order independence.**  The value is the same for every permutation of the corner list … -/
+theorem C19_skew_perm (pi : ℝ) {l l' : List ℝ} (h : l.Perm l') :
+    skewOfAngles pi l = skewOfAngles pi l' := by
+  cases l with
+  | nil => rw [List.nil_perm.mp h]
+  | cons t ts =>
+    cases l' with
+    | nil => exact absurd h.length_eq (by simp)
+    | cons t' ts' =>
+      obtain ⟨h1, h2⟩ := extremes_congr (fun x => h.mem_iff)
+      have hl : (t :: ts).length = (t' :: ts').length := h.length_eq
+      simp only [skewOfAngles, h1, h2, hl]
+
+/-- … in particular for every cyclic rotation (choice of the starting dart of the face) … -/
+theorem C19_skew_rotate (pi : ℝ) (l : List ℝ) (k : Nat) :
+    skewOfAngles pi (l.drop k ++ l.take k) = skewOfAngles pi l := by
+  apply C19_skew_perm
+  have : (l.take k ++ l.drop k).Perm l := by rw [List.take_append_drop]
+  exact List.perm_append_comm.trans this
+
+theorem C19_skew_rotateLeft (pi : ℝ) (l : List ℝ) (k : Nat) :
+    skewOfAngles pi (l.rotateLeft k) = skewOfAngles pi l := by
+  by_cases h : l.length ≤ 1
+  · simp [List.rotateLeft, h]
+  · simp only [List.rotateLeft, h, if_false]
+    exact C19_skew_rotate pi l _
+
+/-- … and for the reversed list (orientation of the face). -/
+theorem C19_skew_reverse (pi : ℝ) (l : List ℝ) :
+    skewOfAngles pi l.reverse = skewOfAngles pi l :=
+  C19_skew_perm pi (List.reverse_perm l)
+
+theorem sum_le_length_mul {l : List ℝ} {M : ℝ} (h : ∀ x ∈ l, x ≤ M) :
+    l.sum ≤ l.length * M := by
+  induction l with
+  | nil => simp
+  | cons a r ih =>
+    have h1 := h a (List.mem_cons_self ..)
+    have h2 := ih (fun x hx => h x (List.mem_cons_of_mem _ hx))
+    simp only [List.sum_cons, List.length_cons, Nat.cast_add, Nat.cast_one]
+    linarith
+
+theorem length_mul_le_sum {l : List ℝ} {m : ℝ} (h : ∀ x ∈ l, m ≤ x) :
+    l.length * m ≤ l.sum := by
+  induction l with
+  | nil => simp
+  | cons a r ih =>
+    have h1 := h a (List.mem_cons_self ..)
+    have h2 := ih (fun x hx => h x (List.mem_cons_of_mem _ hx))
+    simp only [List.sum_cons, List.length_cons, Nat.cast_add, Nat.cast_one]
+    linarith
+
+theorem ideal_bounds {pi : ℝ} (hpi : 0 < pi) {n : Nat} (hn : 3 ≤ n) :
+    0 < idealAngle pi n ∧ idealAngle pi n < pi := by
+  have hn' : (3 : ℝ) ≤ n := by exact_mod_cast hn
+  have hn0 : (0 : ℝ) < n := by linarith
+  unfold idealAngle
+  constructor
+  · apply div_pos _ hn0
+    exact mul_pos (by linarith) hpi
+  · rw [div_lt_iff₀ hn0]
+    nlinarith
+
+/-- with the polygon angle sum `Σθ = (n − 2)·pi` as a hypothesis, the largest angle is at least the
+    ideal one and the smallest at most the ideal one -/
+theorem ideal_between {pi : ℝ} {t : ℝ} {ts : List ℝ}
+    (hsum : (t :: ts).sum = (((t :: ts).length : ℝ) - 2) * pi) :
+    minAngle t ts ≤ idealAngle pi (t :: ts).length ∧ idealAngle pi (t :: ts).length ≤ maxAngle t ts := by
+  have hn0 : (0 : ℝ) < ((t :: ts).length : ℝ) := by
+    simp only [List.length_cons, Nat.cast_add, Nat.cast_one]; positivity
+  have h1 := sum_le_length_mul (le_maxAngle t ts)
+  have h2 := length_mul_le_sum (minAngle_le t ts)
+  unfold idealAngle
+  rw [hsum] at h1 h2
+  constructor
+  · rw [le_div_iff₀ hn0]; linarith
+  · rw [div_le_iff₀ hn0]; linarith
+
+/-- **range.**  For a face with `n ≥ 3` corners whose angles lie in `]0, pi[` and add up to
+    `(n − 2)·pi` (angle sum of a simple polygon — a hypothesis) the skewness lies in `[0, 1[`. -/
+theorem C19_skew_mem_Ico {pi : ℝ} (hpi : 0 < pi) (l : List ℝ) (hn : 3 ≤ l.length)
+    (hθ : ∀ θ ∈ l, 0 < θ ∧ θ < pi) (hsum : l.sum = ((l.length : ℝ) - 2) * pi) :
+    0 ≤ skewOfAngles pi l ∧ skewOfAngles pi l < 1 := by
+  cases l with
+  | nil => simp at hn
+  | cons t ts =>
+    obtain ⟨hi0, hi1⟩ := ideal_bounds hpi hn
+    obtain ⟨hm, hM⟩ := ideal_between hsum
+    have hMlt := (hθ _ (maxAngle_mem t ts)).2
+    have hmpos := (hθ _ (minAngle_mem t ts)).1
+    simp only [skewOfAngles]
+    set I := idealAngle pi (t :: ts).length
+    have hd : 0 < pi - I := by linarith
+    constructor
+    · exact le_max_of_le_left (div_nonneg (by linarith) hd.le)
+    · apply max_lt
+      · rw [div_lt_one hd]; linarith
+      · rw [div_lt_one hi0]; linarith
+
+/-- **equiangular faces.**  If every corner angle equals the ideal angle the skewness is 0
+    (regular polygons in particular) — no side condition. -/
+theorem C19_skew_eq_zero_of_equiangular (pi : ℝ) (l : List ℝ)
+    (h : ∀ θ ∈ l, θ = idealAngle pi l.length) : skewOfAngles pi l = 0 := by
+  cases l with
+  | nil => rfl
+  | cons t ts =>
+    have h1 := h _ (maxAngle_mem t ts)
+    have h2 := h _ (minAngle_mem t ts)
+    simp only [skewOfAngles, h1, h2, sub_self, zero_div, max_self]
+
+/-- conversely (for `n ≥ 3`, `0 < pi`): skewness 0 only for equiangular faces -/
+theorem C19_skew_eq_zero_iff {pi : ℝ} (hpi : 0 < pi) (l : List ℝ) (hn : 3 ≤ l.length) :
+    skewOfAngles pi l = 0 ↔ ∀ θ ∈ l, θ = idealAngle pi l.length := by
+  refine ⟨?_, C19_skew_eq_zero_of_equiangular pi l⟩
+  cases l with
+  | nil => simp at hn
+  | cons t ts =>
+    obtain ⟨hi0, hi1⟩ := ideal_bounds hpi hn
+    intro h0 θ hθ
+    simp only [skewOfAngles] at h0
+    set I := idealAngle pi (t :: ts).length
+    have hd : 0 < pi - I := by linarith
+    have hA : (maxAngle t ts - I) / (pi - I) ≤ 0 := h0 ▸ le_max_left _ _
+    have hB : (I - minAngle t ts) / I ≤ 0 := h0 ▸ le_max_right _ _
+    have hA' : maxAngle t ts - I ≤ 0 := by
+      by_contra hc
+      exact absurd hA (not_le.mpr (div_pos (not_le.mp hc) hd))
+    have hB' : I - minAngle t ts ≤ 0 := by
+      by_contra hc
+      exact absurd hB (not_le.mpr (div_pos (not_le.mp hc) hi0))
+    have := le_maxAngle t ts θ hθ
+    have := minAngle_le t ts θ hθ
+    linarith
+
+/-! ### similarity invariance: the value depends on the geometry only through the corner angles -/
+
+/-- cosine of the corner at `b` as the Rust computes it:
+    `vin.dot(&vout) / (vin.norm() * vout.norm())` with `vin = v1 - v2`, `vout = v3 - v2` -/
+noncomputable def cornerCos (a b c : P2 ℝ) : ℝ :=
+  V2.dot (P2.sub a b) (P2.sub c b) /
+    (Real.sqrt (V2.normSq (P2.sub a b)) * Real.sqrt (V2.normSq (P2.sub c b)))
+
+/-- skewness of the polygon `pts` (vertices in the order of the darts `fid, β1 fid, …`), for any
+    function `acos` turning the cosine into the measured angle -/
+noncomputable def faceSkew (acos : ℝ → ℝ) (pi : ℝ) (pts : List (P2 ℝ)) : ℝ :=
+  skewOfAngles pi ((corners pts).map fun c => acos (cornerCos c.1 c.2.1 c.2.2))
+
+/-- a similarity: differences are transformed by a map `L` that multiplies dot products by `κ > 0` -/
+structure Similarity (f : P2 ℝ → P2 ℝ) : Prop where
+  ex : ∃ (L : V2 ℝ → V2 ℝ) (κ : ℝ), 0 < κ ∧ (∀ p q, P2.sub (f p) (f q) = L (P2.sub p q)) ∧
+    (∀ v w, V2.dot (L v) (L w) = κ * V2.dot v w)
+
+theorem C19_cornerCos_similarity {f : P2 ℝ → P2 ℝ} (hf : Similarity f) (a b c : P2 ℝ) :
+    cornerCos (f a) (f b) (f c) = cornerCos a b c := by
+  obtain ⟨L, κ, hκ, hsub, hdot⟩ := hf.ex
+  have hn : ∀ v, V2.normSq (L v) = κ * V2.normSq v := fun v => hdot v v
+  unfold cornerCos
+  rw [hsub, hsub, hdot, hn, hn, Real.sqrt_mul hκ.le, Real.sqrt_mul hκ.le]
+  have hk : Real.sqrt κ * Real.sqrt κ = κ := Real.mul_self_sqrt hκ.le
+  have : Real.sqrt κ * Real.sqrt (V2.normSq (P2.sub a b)) * (Real.sqrt κ * Real.sqrt (V2.normSq (P2.sub c b)))
+      = κ * (Real.sqrt (V2.normSq (P2.sub a b)) * Real.sqrt (V2.normSq (P2.sub c b))) := by
+    rw [mul_mul_mul_comm, hk]
+  rw [this, mul_div_mul_left _ _ hκ.ne']
+
+theorem similarity_translate (t : V2 ℝ) : Similarity (fun p => P2.addV p t) :=
+  ⟨⟨id, 1, one_pos, fun p q => by simp [P2.sub, P2.addV], fun v w => by simp⟩⟩
+
+theorem similarity_scale {k : ℝ} (hk : k ≠ 0) : Similarity (fun p => ⟨k * p.x, k * p.y⟩) :=
+  ⟨⟨fun v => V2.mul v k, k * k, mul_self_pos.mpr hk,
+    fun p q => by simp only [P2.sub, V2.mul, V2.mk.injEq]; constructor <;> ring,
+    fun v w => by simp only [V2.dot, V2.mul]; ring⟩⟩
+
+theorem similarity_rotate {co si : ℝ} (h : co * co + si * si = 1) :
+    Similarity (fun p => ⟨co * p.x - si * p.y, si * p.x + co * p.y⟩) :=
+  ⟨⟨fun v => ⟨co * v.x - si * v.y, si * v.x + co * v.y⟩, 1, one_pos,
+    fun p q => by simp only [P2.sub, V2.mk.injEq]; constructor <;> ring,
+    fun v w => by
+      simp only [V2.dot]
+      have : (co * v.x - si * v.y) * (co * w.x - si * w.y) + (si * v.x + co * v.y) * (si * w.x + co * w.y)
+          = (co * co + si * si) * (v.x * w.x + v.y * w.y) := by ring
+      rw [this, h]⟩⟩
+
+theorem similarity_reflect : Similarity (fun p => ⟨p.x, -p.y⟩) :=
+  ⟨⟨fun v => ⟨v.x, -v.y⟩, 1, one_pos,
+    fun p q => by simp only [P2.sub, V2.mk.injEq, true_and]; ring,
+    fun v w => by simp only [V2.dot]; ring⟩⟩
+
+theorem corners_map {β γ : Type} (f : β → γ) (pts : List β) :
+    corners (pts.map f) = (corners pts).map fun c => (f c.1, f c.2.1, f c.2.2) := by
+  unfold corners
+  simp only [List.length_map, List.getElem?_map, List.map_filterMap]
+  congr 1
+  funext i
+  cases pts[i % pts.length]? <;> cases pts[(i + 1) % pts.length]? <;>
+    cases pts[(i + 2) % pts.length]? <;> rfl
+
+/-- **similarity invariance** of the face skewness (translation, rotation, uniform scaling,
+    reflection and their composites), for any angle function of the corner cosine -/
+theorem C19_faceSkew_similarity (acos : ℝ → ℝ) (pi : ℝ) {f : P2 ℝ → P2 ℝ} (hf : Similarity f)
+    (pts : List (P2 ℝ)) : faceSkew acos pi (pts.map f) = faceSkew acos pi pts := by
+  unfold faceSkew
+  rw [corners_map, List.map_map]
+  congr 1
+  apply List.map_congr_left
+  intro c _
+  simp only [Function.comp, C19_cornerCos_similarity hf]
+
+end Skew
+
+/-! ## Non-vacuity: every theorem is instantiated, every hypothesis shown satisfiable -/
+section Examples
+
+-- (a) exact laws, on ℚ
+example : V2.sub (⟨1, 2⟩ : V2 ℚ) ⟨1, 2⟩ = ⟨0, 0⟩ := C19_v2_sub_self _
+example : V2.sub (V2.add (⟨1, 2⟩ : V2 ℚ) ⟨3, 5⟩) ⟨1, 2⟩ = ⟨3, 5⟩ := C19_v2_add_sub_cancel _ _
+example : V2.addAssign (⟨1, 2⟩ : V2 ℚ) ⟨3, 5⟩ = V2.add ⟨1, 2⟩ ⟨3, 5⟩ := C19_v2_addAssign_eq _ _
+example : V2.mulAssign (⟨1, 2⟩ : V2 ℚ) 3 = V2.mul ⟨1, 2⟩ 3 := C19_v2_mulAssign_eq _ _
+example : V2.divAssign (⟨1, 2⟩ : V2 ℚ) 4 = V2.div ⟨1, 2⟩ 4 := C19_v2_divAssign_eq _ _
+example : V2.subAssign (⟨1, 2⟩ : V2 ℚ) ⟨3, 5⟩ = ⟨1 - 2 * 3, 2⟩ := C19_v2_subAssign_formula _ _
+example : V2.subAssign (⟨1, 2⟩ : V2 ℚ) ⟨3, 5⟩ = ⟨1 - 3 - 3, 2⟩ := C19_v2_subAssign_unfold _ _
+/-- the partial theorem is not vacuous: the null right-hand side satisfies its condition -/
+example : V2.subAssign (⟨1, 2⟩ : V2 ℚ) ⟨0, 0⟩ = V2.sub ⟨1, 2⟩ ⟨0, 0⟩ :=
+  (C19_v2_subAssign_eq_iff _ _).mpr ⟨rfl, rfl⟩
+/-- … and any other right-hand side violates the clause -/
+example : V2.subAssign (⟨1, 2⟩ : V2 ℚ) ⟨0, 1⟩ ≠ V2.sub ⟨1, 2⟩ ⟨0, 1⟩ := fun h =>
+  absurd ((C19_v2_subAssign_eq_iff _ _).mp h).2 (by norm_num)
+example : ∃ a b : V2 Rat, V2.subAssign a b ≠ V2.sub a b := C19_v2_subAssign_fails
+example : V2.dot (⟨1, 2⟩ : V2 ℚ) ⟨3, 5⟩ = V2.dot ⟨3, 5⟩ ⟨1, 2⟩ := C19_v2_dot_comm _ _
+example : V2.neg (⟨1, 2⟩ : V2 ℚ) = V2.sub ⟨0, 0⟩ ⟨1, 2⟩ := C19_v2_neg_eq _
+example : V2.div (⟨1, 2⟩ : V2 ℚ) 4 = some (V2.divCore ⟨1, 2⟩ 4) :=
+  (C19_v2_div_ok_iff _ _).mpr (by norm_num)
+example : V2.div (⟨1, 2⟩ : V2 ℚ) 0 ≠ some (V2.divCore ⟨1, 2⟩ 0) := fun h =>
+  (C19_v2_div_ok_iff _ _).mp h rfl
+example : V3.sub (⟨1, 2, 3⟩ : V3 ℚ) ⟨1, 2, 3⟩ = ⟨0, 0, 0⟩ := C19_v3_sub_self _
+example : V3.sub (V3.add (⟨1, 2, 3⟩ : V3 ℚ) ⟨3, 5, 7⟩) ⟨1, 2, 3⟩ = ⟨3, 5, 7⟩ :=
+  C19_v3_add_sub_cancel _ _
+example : V3.addAssign (⟨1, 2, 3⟩ : V3 ℚ) ⟨3, 5, 7⟩ = V3.add ⟨1, 2, 3⟩ ⟨3, 5, 7⟩ := C19_v3_addAssign_eq _ _
+example : V3.subAssign (⟨1, 2, 3⟩ : V3 ℚ) ⟨3, 5, 7⟩ = V3.sub ⟨1, 2, 3⟩ ⟨3, 5, 7⟩ := C19_v3_subAssign_eq _ _
+example : V3.mulAssign (⟨1, 2, 3⟩ : V3 ℚ) 3 = V3.mul ⟨1, 2, 3⟩ 3 := C19_v3_mulAssign_eq _ _
+example : V3.divAssign (⟨1, 2, 3⟩ : V3 ℚ) 4 = V3.div ⟨1, 2, 3⟩ 4 := C19_v3_divAssign_eq _ _
+example : V3.dot (⟨1, 2, 3⟩ : V3 ℚ) ⟨3, 5, 7⟩ = V3.dot ⟨3, 5, 7⟩ ⟨1, 2, 3⟩ := C19_v3_dot_comm _ _
+example : V3.cross (⟨1, 0, 0⟩ : V3 ℚ) ⟨0, 1, 0⟩ = V3.neg (V3.cross ⟨0, 1, 0⟩ ⟨1, 0, 0⟩) :=
+  C19_v3_cross_antisymm _ _
+example : V3.dot (V3.cross (⟨1, 2, 3⟩ : V3 ℚ) ⟨3, 5, 7⟩) ⟨1, 2, 3⟩ = 0 := C19_v3_cross_dot_left _ _
+example : V3.dot (V3.cross (⟨1, 2, 3⟩ : V3 ℚ) ⟨3, 5, 7⟩) ⟨3, 5, 7⟩ = 0 := C19_v3_cross_dot_right _ _
+example : V3.div (⟨1, 2, 3⟩ : V3 ℚ) 4 = some (V3.divCore ⟨1, 2, 3⟩ 4) :=
+  (C19_v3_div_ok_iff _ _).mpr (by norm_num)
+example : P2.addVAssign (⟨1, 2⟩ : P2 ℚ) ⟨3, 5⟩ = P2.addV ⟨1, 2⟩ ⟨3, 5⟩ := C19_p2_addVAssign_eq _ _
+example : P2.addVRef (⟨1, 2⟩ : P2 ℚ) ⟨3, 5⟩ = P2.addV ⟨1, 2⟩ ⟨3, 5⟩ := C19_p2_addVRef_eq _ _
+example : P2.addVRefAssign (⟨1, 2⟩ : P2 ℚ) ⟨3, 5⟩ = P2.addV ⟨1, 2⟩ ⟨3, 5⟩ := C19_p2_addVRefAssign_eq _ _
+example : P2.subVAssign (⟨1, 2⟩ : P2 ℚ) ⟨3, 5⟩ = P2.subV ⟨1, 2⟩ ⟨3, 5⟩ := C19_p2_subVAssign_eq _ _
+example : P2.subVRef (⟨1, 2⟩ : P2 ℚ) ⟨3, 5⟩ = P2.subV ⟨1, 2⟩ ⟨3, 5⟩ := C19_p2_subVRef_eq _ _
+example : P2.subVRefAssign (⟨1, 2⟩ : P2 ℚ) ⟨3, 5⟩ = P2.subV ⟨1, 2⟩ ⟨3, 5⟩ := C19_p2_subVRefAssign_eq _ _
+example : P2.sub (⟨1, 2⟩ : P2 ℚ) ⟨1, 2⟩ = ⟨0, 0⟩ := C19_p2_sub_self _
+example : P2.sub (P2.addV (⟨1, 2⟩ : P2 ℚ) ⟨3, 5⟩) ⟨1, 2⟩ = ⟨3, 5⟩ := C19_p2_add_sub_cancel _ _
+example : P2.subV (P2.addV (⟨1, 2⟩ : P2 ℚ) ⟨3, 5⟩) ⟨3, 5⟩ = ⟨1, 2⟩ := C19_p2_addV_subV_cancel _ _
+example : P3.addVAssign (⟨1, 2, 3⟩ : P3 ℚ) ⟨3, 5, 7⟩ = P3.addV ⟨1, 2, 3⟩ ⟨3, 5, 7⟩ := C19_p3_addVAssign_eq _ _
+example : P3.addVRef (⟨1, 2, 3⟩ : P3 ℚ) ⟨3, 5, 7⟩ = P3.addV ⟨1, 2, 3⟩ ⟨3, 5, 7⟩ := C19_p3_addVRef_eq _ _
+example : P3.addVRefAssign (⟨1, 2, 3⟩ : P3 ℚ) ⟨3, 5, 7⟩ = P3.addV ⟨1, 2, 3⟩ ⟨3, 5, 7⟩ :=
+  C19_p3_addVRefAssign_eq _ _
+example : P3.subVAssign (⟨1, 2, 3⟩ : P3 ℚ) ⟨3, 5, 7⟩ = P3.subV ⟨1, 2, 3⟩ ⟨3, 5, 7⟩ := C19_p3_subVAssign_eq _ _
+example : P3.subVRef (⟨1, 2, 3⟩ : P3 ℚ) ⟨3, 5, 7⟩ = P3.subV ⟨1, 2, 3⟩ ⟨3, 5, 7⟩ := C19_p3_subVRef_eq _ _
+example : P3.subVRefAssign (⟨1, 2, 3⟩ : P3 ℚ) ⟨3, 5, 7⟩ = P3.subV ⟨1, 2, 3⟩ ⟨3, 5, 7⟩ :=
+  C19_p3_subVRefAssign_eq _ _
+example : P3.sub (⟨1, 2, 3⟩ : P3 ℚ) ⟨1, 2, 3⟩ = ⟨0, 0, 0⟩ := C19_p3_sub_self _
+example : P3.sub (P3.addV (⟨1, 2, 3⟩ : P3 ℚ) ⟨3, 5, 7⟩) ⟨1, 2, 3⟩ = ⟨3, 5, 7⟩ := C19_p3_add_sub_cancel _ _
+example : P3.subV (P3.addV (⟨1, 2, 3⟩ : P3 ℚ) ⟨3, 5, 7⟩) ⟨3, 5, 7⟩ = ⟨1, 2, 3⟩ :=
+  C19_p3_addV_subV_cancel _ _
+
+-- orientation
+example : P2.orient (⟨0, 0⟩ : P2 ℚ) ⟨1, 0⟩ ⟨0, 1⟩ = shoelace2 ⟨0, 0⟩ ⟨1, 0⟩ ⟨0, 1⟩ := C19_orient_eq_shoelace _ _ _
+example : P2.orient (⟨0, 0⟩ : P2 ℚ) ⟨1, 0⟩ ⟨0, 1⟩ = -P2.orient ⟨0, 0⟩ ⟨0, 1⟩ ⟨1, 0⟩ := C19_orient_swap _ _ _
+example : P2.orient (⟨0, 0⟩ : P2 ℚ) ⟨1, 0⟩ ⟨0, 1⟩ = P2.orient ⟨1, 0⟩ ⟨0, 1⟩ ⟨0, 0⟩ := C19_orient_cyclic _ _ _
+example (a b c : P2 ℚ) :
+    P2.orient (⟨2 * a.x + 0 * a.y + 7, 0 * a.x + 3 * a.y + 1⟩ : P2 ℚ) ⟨2 * b.x + 0 * b.y + 7, 0 * b.x + 3 * b.y + 1⟩
+      ⟨2 * c.x + 0 * c.y + 7, 0 * c.x + 3 * c.y + 1⟩ = (2 * 3 - 0 * 0) * P2.orient a b c :=
+  C19_orient_affine 2 0 0 3 7 1 a b c
+/-- the standard frame `(0,0), (1,0), (0,1)` is counter-clockwise and its orientation product positive -/
+example : Ccw (⟨0, 0⟩ : P2 ℚ) ⟨1, 0⟩ ⟨0, 1⟩ := by norm_num [Ccw, shoelace2]
+example : 0 < P2.orient (⟨0, 0⟩ : P2 ℚ) ⟨1, 0⟩ ⟨0, 1⟩ :=
+  (C19_orient_pos_iff_ccw _ _ _).mpr (by norm_num [Ccw, shoelace2])
+example : P2.orient (⟨0, 0⟩ : P2 ℚ) ⟨0, 1⟩ ⟨1, 0⟩ < 0 :=
+  (C19_orient_neg_iff_cw _ _ _).mpr (by norm_num [Cw, shoelace2])
+example : Cw (⟨0, 0⟩ : P2 ℚ) ⟨0, 1⟩ ⟨1, 0⟩ :=
+  (C19_cw_iff_ccw_swap _ _ _).mpr (by norm_num [Ccw, shoelace2])
+
+-- average
+example : P2.average (⟨0, 0⟩ : P2 ℚ) ⟨2, 4⟩ = P2.average ⟨2, 4⟩ ⟨0, 0⟩ := C19_p2_average_comm _ _
+example : P3.average (⟨0, 0, 1⟩ : P3 ℚ) ⟨2, 4, 3⟩ = P3.average ⟨2, 4, 3⟩ ⟨0, 0, 1⟩ := C19_p3_average_comm _ _
+example := (C19_p2_average_between (⟨0, 0⟩ : P2 ℚ) ⟨2, 4⟩).1.1
+example := (C19_p3_average_between (⟨0, 0, 1⟩ : P3 ℚ) ⟨2, 4, 3⟩).2.2.2
+
+-- unit_dir / normal_dir: both outcomes occur
+example : V2.unitDirPre (⟨0, 0⟩ : V2 ℚ) = .error .invalidUnitDir := (C19_v2_unitDir_err_iff _).mpr rfl
+example : V2.unitDirPre (⟨3, 4⟩ : V2 ℚ) = .ok (V2.normSq ⟨3, 4⟩, ⟨3, 4⟩) :=
+  (C19_v2_unitDir_ok_iff _).mpr (by simp)
+example : V2.normalDirPre (⟨0, 0⟩ : V2 ℚ) = .error .invalidNormDir := (C19_v2_normalDir_err_iff _).mpr rfl
+example : V2.normalDirPre (⟨3, 4⟩ : V2 ℚ) = .ok (V2.normSq (⟨-4, 3⟩ : V2 ℚ), ⟨-4, 3⟩) :=
+  (C19_v2_normalDir_ok_iff _).mpr (by simp)
+example : V3.unitDirPre (⟨0, 0, 0⟩ : V3 ℚ) = .error .invalidUnitDir := (C19_v3_unitDir_err_iff _).mpr rfl
+example : V3.unitDirPre (⟨1, 2, 2⟩ : V3 ℚ) = .ok (V3.normSq ⟨1, 2, 2⟩, ⟨1, 2, 2⟩) :=
+  (C19_v3_unitDir_ok_iff _).mpr (by simp)
+example : unitDirR2 ⟨0, 0⟩ = .error .invalidUnitDir := (C19_unitDirR2_err_iff _).mpr rfl
+example : normalDirR2 ⟨0, 0⟩ = .error .invalidNormDir := (C19_normalDirR2_err_iff _).mpr rfl
+example : unitDirR3 ⟨0, 0, 0⟩ = .error .invalidUnitDir := (C19_unitDirR3_err_iff _).mpr rfl
+example : ∃ r k, unitDirR2 ⟨3, 4⟩ = .ok r ∧ V2.div ⟨3, 4⟩ (Real.sqrt (V2.normSq ⟨3, 4⟩)) = some r ∧
+    V2.normSq r = 1 ∧ 0 < k ∧ r = V2.mul ⟨3, 4⟩ k := C19_unitDirR2_spec ⟨3, 4⟩ (by simp)
+example : ∃ r k, normalDirR2 ⟨3, 4⟩ = .ok r ∧ V2.normSq r = 1 ∧ 0 < k ∧ r = V2.mul ⟨-4, 3⟩ k ∧
+    V2.dot r ⟨3, 4⟩ = 0 ∧ 0 < (3 : ℝ) * r.y - 4 * r.x := C19_normalDirR2_spec ⟨3, 4⟩ (by simp)
+example : ∃ r k, unitDirR3 ⟨1, 2, 2⟩ = .ok r ∧ V3.div ⟨1, 2, 2⟩ (Real.sqrt (V3.normSq ⟨1, 2, 2⟩)) = some r ∧
+    V3.normSq r = 1 ∧ 0 < k ∧ r = V3.mul ⟨1, 2, 2⟩ k := C19_unitDirR3_spec ⟨1, 2, 2⟩ (by simp)
+
+-- (b) the rounding model is satisfiable: exact arithmetic, and a genuinely inexact rounding
+theorem roundModel_id : RoundModel id 0 := ⟨le_rfl, one_pos, fun x => by simp⟩
+
+/-- `fl x = x·(1 + 1/4)` commits exactly the maximal relative error `u = 1/4` -/
+theorem roundModel_quarter : RoundModel (fun x => x * (1 + 1 / 4)) (1 / 4) :=
+  ⟨by norm_num, by norm_num, fun x => by
+    have : x * (1 + 1 / 4) - x = 1 / 4 * x := by ring
+    rw [this, abs_mul]; norm_num⟩
+
+example : (fun x : ℝ => x * (1 + 1 / 4)) 0 = 0 := roundModel_quarter.fl_zero
+example : 0 < (fun x : ℝ => x * (1 + 1 / 4)) 2 ↔ (0 : ℝ) < 2 := roundModel_quarter.fl_pos_iff 2
+example : (fun x : ℝ => x * (1 + 1 / 4)) (-2) < 0 ↔ (-2 : ℝ) < 0 := roundModel_quarter.fl_neg_iff (-2)
+example : ∃ d, |d - 1| ≤ (1 / 4 : ℝ) ∧ (fun x : ℝ => x * (1 + 1 / 4)) 2 = 2 * d := roundModel_quarter.fl_rel 2
+example (v : V2 (FlR fun x => x * (1 + 1 / 4))) : V2.sub v v = ⟨⟨0⟩, ⟨0⟩⟩ := C19_fl_v2_sub_self roundModel_quarter v
+example (v : V3 (FlR fun x => x * (1 + 1 / 4))) : V3.sub v v = ⟨⟨0⟩, ⟨0⟩, ⟨0⟩⟩ := C19_fl_v3_sub_self roundModel_quarter v
+example (v : P2 (FlR fun x => x * (1 + 1 / 4))) : P2.sub v v = ⟨⟨0⟩, ⟨0⟩⟩ := C19_fl_p2_sub_self roundModel_quarter v
+example (v : P3 (FlR fun x => x * (1 + 1 / 4))) : P3.sub v v = ⟨⟨0⟩, ⟨0⟩, ⟨0⟩⟩ := C19_fl_p3_sub_self roundModel_quarter v
+example (a b : ℝ) : |(fun x : ℝ => x * (1 + 1 / 4)) ((fun x : ℝ => x * (1 + 1 / 4)) (a + b) - a) - b|
+    ≤ (2 * (1 / 4) + (1 / 4) ^ 2) * (|a| + |b|) := roundModel_quarter.add_sub_bound a b
+example (v w : V2 (FlR fun x => x * (1 + 1 / 4))) :=
+  C19_fl_v2_add_sub_bound roundModel_quarter v w
+example (v w : V3 (FlR fun x => x * (1 + 1 / 4))) :=
+  C19_fl_v3_add_sub_bound roundModel_quarter v w
+example (p : P2 (FlR fun x => x * (1 + 1 / 4))) (w : V2 (FlR fun x => x * (1 + 1 / 4))) :=
+  C19_fl_p2_add_sub_bound roundModel_quarter p w
+example (p : P3 (FlR fun x => x * (1 + 1 / 4))) (w : V3 (FlR fun x => x * (1 + 1 / 4))) :=
+  C19_fl_p3_add_sub_bound roundModel_quarter p w
+example (a b : V2 (FlR fun x => x * (1 + 1 / 4))) : V2.dot a b = V2.dot b a := C19_fl_v2_dot_comm a b
+example (a b : V3 (FlR fun x => x * (1 + 1 / 4))) : V3.dot a b = V3.dot b a := C19_fl_v3_dot_comm a b
+example (a b : P2 (FlR fun x => x * (1 + 1 / 4))) : P2.average a b = P2.average b a := C19_fl_p2_average_comm a b
+example (a b : P3 (FlR fun x => x * (1 + 1 / 4))) : P3.average a b = P3.average b a := C19_fl_p3_average_comm a b
+/-- the oddness hypothesis of the antisymmetry theorem is satisfiable by an inexact rounding -/
+example (a b : V3 (FlR fun x => x * (1 + 1 / 4))) : V3.cross a b = V3.neg (V3.cross b a) :=
+  C19_fl_v3_cross_antisymm (fun x => by ring) a b
+example (x y : ℝ) := roundModel_quarter.prod_bound x y
+
+/-- the band hypothesis of the orientation theorem is satisfiable with an inexact rounding (`u = 1/4`,
+    band factor `61/64`): the standard frame is far from collinear, the computed sign is right -/
+example : 0 < (P2.orient (α := FlR fun x => x * (1 + 1 / 4)) ⟨⟨0⟩, ⟨0⟩⟩ ⟨⟨1⟩, ⟨0⟩⟩ ⟨⟨0⟩, ⟨1⟩⟩).val :=
+  (C19_fl_orient_sign roundModel_quarter ⟨⟨0⟩, ⟨0⟩⟩ ⟨⟨1⟩, ⟨0⟩⟩ ⟨⟨0⟩, ⟨1⟩⟩
+    (by norm_num [orientBand, toR2, P2.orient])).1.mpr (by norm_num [toR2, P2.orient])
+
+-- (c) skewness: a right triangle measured with `pi = 4` (angles 2, 1, 1), an equilateral one with `pi = 3`
+example : 0 ≤ skewOfAngles (4 : ℝ) [2, 1, 1] ∧ skewOfAngles (4 : ℝ) [2, 1, 1] < 1 :=
+  C19_skew_mem_Ico (by norm_num) _ (by simp) (by
+    intro θ hθ
+    simp only [List.mem_cons, List.not_mem_nil, or_false] at hθ
+    rcases hθ with rfl | rfl | rfl <;> norm_num) (by norm_num)
+example : skewOfAngles (3 : ℝ) [1, 1, 1] = 0 :=
+  C19_skew_eq_zero_of_equiangular _ _ (by
+    intro θ hθ
+    simp only [List.mem_cons, List.not_mem_nil, or_false] at hθ
+    rcases hθ with rfl | rfl | rfl <;> norm_num [idealAngle])
+example : skewOfAngles (4 : ℝ) [2, 1, 1] ≠ 0 := fun h => by
+  have := (C19_skew_eq_zero_iff (by norm_num) _ (by simp)).mp h 2 (by simp)
+  norm_num [idealAngle] at this
+example : skewOfAngles (4 : ℝ) [1, 2, 1] = skewOfAngles (4 : ℝ) [2, 1, 1] :=
+  C19_skew_perm _ (List.Perm.swap ..)
+example : skewOfAngles (4 : ℝ) ([2, 1, 1].drop 1 ++ [2, 1, 1].take 1) = skewOfAngles (4 : ℝ) [2, 1, 1] :=
+  C19_skew_rotate _ _ 1
+example : skewOfAngles (4 : ℝ) ([2, 1, 1].rotateLeft 2) = skewOfAngles (4 : ℝ) [2, 1, 1] :=
+  C19_skew_rotateLeft _ _ 2
+example : skewOfAngles (4 : ℝ) [2, 1, 1].reverse = skewOfAngles (4 : ℝ) [2, 1, 1] := C19_skew_reverse _ _
+example : minAngle (2 : ℝ) [1, 1] ≤ 1 := minAngle_le _ _ _ (by simp)
+example : minAngle (2 : ℝ) [1, 1] ∈ [(2 : ℝ), 1, 1] := minAngle_mem _ _
+example : (2 : ℝ) ≤ maxAngle 2 [1, 1] := le_maxAngle _ _ _ (by simp)
+example : maxAngle (2 : ℝ) [1, 1] ∈ [(2 : ℝ), 1, 1] := maxAngle_mem _ _
+
+-- similarities exist: translation, scaling, the 3-4-5 rotation, reflection
+example : Similarity (fun p => P2.addV p ⟨7, -1⟩) := similarity_translate _
+example : Similarity (fun p => ⟨3 * p.x, 3 * p.y⟩) := similarity_scale (by norm_num)
+example : Similarity (fun p => ⟨3 / 5 * p.x - 4 / 5 * p.y, 4 / 5 * p.x + 3 / 5 * p.y⟩) :=
+  similarity_rotate (by norm_num)
+example : Similarity (fun p => ⟨p.x, -p.y⟩) := similarity_reflect
+example (a b c : P2 ℝ) : cornerCos (P2.addV a ⟨7, -1⟩) (P2.addV b ⟨7, -1⟩) (P2.addV c ⟨7, -1⟩) = cornerCos a b c :=
+  C19_cornerCos_similarity (similarity_translate _) a b c
+example (acos : ℝ → ℝ) (pts : List (P2 ℝ)) :
+    faceSkew acos 3 (pts.map fun p => ⟨3 / 5 * p.x - 4 / 5 * p.y, 4 / 5 * p.x + 3 / 5 * p.y⟩) = faceSkew acos 3 pts :=
+  C19_faceSkew_similarity acos 3 (similarity_rotate (by norm_num)) pts
+example : corners ([1, 2, 3].map (· + 1)) = (corners [1, 2, 3]).map fun c => (c.1 + 1, c.2.1 + 1, c.2.2 + 1) :=
+  corners_map _ _
+
+end Examples
 
 end HC.C19
